@@ -23,7 +23,8 @@ def main(prop: str, tier: str) -> int:
     rep.cov['states'] = rep.cov.get('states', 0) + cp.get('states', 0)
     rep.cov['transitions'] = rep.cov.get('transitions', 0) + cp.get('transitions', 0)
     rep.cov['traces_validated_against_impl'] = rep.cov.get('traces_validated_against_impl', 0) + cp.get('behaviours', 0)
-    for modname, fn in (('checks.tokedit', 'refusal_part'), ('checks.numexpr', 'refusal_part'), ('checks.slots', 'refusal_part')):
+    for modname, fn in (('checks.tokedit', 'refusal_part'), ('checks.numexpr', 'refusal_part'), ('checks.slots', 'refusal_part'),
+                       ('checks.c17', 'refusal_part')):
         try:
             mod = __import__(modname, fromlist=[fn])
             f = getattr(mod, fn, None)
